@@ -920,6 +920,13 @@ func (sc *segmentController[T, O]) create(ctx context.Context, start time.Time) 
 		end = stdEnd
 	}
 	segPath := path.Join(sc.location, fmt.Sprintf(segTemplate, sc.format(start)))
+	if sc.lfs.IsExist(segPath) {
+		// No listed segment owns this directory, so it belongs to a segment that was
+		// selected for deletion while still referenced: it left sc.lst, but its
+		// directory stays until the last DecRef runs the deferred delete. A segment
+		// opened on it now would lose its files to that delete; refuse until it is gone.
+		return nil, errors.WithMessagef(ErrSegmentClosed, "segment %s is being deleted", segPath)
+	}
 	sc.lfs.MkdirPanicIfExist(segPath, DirPerm)
 	meta := segmentMeta{
 		Version: currentVersion,
